@@ -88,6 +88,12 @@ type Case struct {
 	Sched    Schedule `json:"sched"`
 	// Light: run on the light backend (same use cases and pool, in-memory key-value provider instead of Badger)
 	Light bool `json:"light,omitempty"`
+	// Search > 0 turns the case into a small search (used by replays of findings, so that they do not
+	// depend on step numbers): all schedules with <= Search forced preemptions are executed; the case
+	// fails with the first failing schedule (or reports the first schedule that shows the known
+	// finding named by FindKnown).
+	Search    int    `json:"search,omitempty"`
+	FindKnown string `json:"find_known,omitempty"`
 	// Deep marks catalogue programs that get the full preemption bound in the quick tier as well
 	Deep bool `json:"deep,omitempty"`
 	// Window restricts forced preemptions to the concurrent phase when enumerating (bookkeeping only)
